@@ -38,6 +38,8 @@ func c09Unfolded(f expr.Expr) string {
 	return bad
 }
 
+var binOpsAll = []expr.BinaryOp{expr.Add, expr.Lsh, expr.Rsh, expr.Mul, expr.Div, expr.Nand}
+
 var colC09 *ev.Collector
 
 // propC09 is the property of C09; it is shared by the rapid test and the native
@@ -84,6 +86,45 @@ func propC09(t *rapid.T) {
 		t.Fatalf("folding is not idempotent: %s -> %s -> %s", before, irsem.String(f), irsem.String(ff))
 	}
 
+	// A folded tree is an ordinary expression: build a bigger tree around it
+	// (sharing it between two positions) and fold again.
+	if rapid.IntRange(0, 2).Draw(t, "compose") == 0 {
+		fStr := irsem.String(f)
+		e2 := irsem.GenExpr(t, irsem.GenCfg{MaxDepth: 2, GadgetProb: 25, ConstOnly: cfg.ConstOnly})
+		w := irsem.GenWidth(t, cfg, "composeW")
+		var g expr.Expr
+		switch rapid.IntRange(0, 3).Draw(t, "composeKind") {
+		case 0:
+			g = expr.NewBinary(binOpsAll[rapid.IntRange(0, len(binOpsAll)-1).Draw(t, "composeOp")], f, e2, w)
+		case 1:
+			g = expr.NewLess(f, e2, f, e2, w)
+		case 2:
+			g = expr.NewMemLoad(irsem.MemKeys[0], expr.NewBinary(expr.Add, f, e2, w), irsem.GenWidth(t, cfg, "composeLW"))
+		default:
+			g = expr.NewLess(e2, f, expr.NewBinary(expr.Add, f, f, w), f, w)
+		}
+		gStr := irsem.String(g)
+		var fg expr.Expr
+		if msg := catch(func() { fg = exprtransform.ConstFold(g) }); msg != "" {
+			t.Fatalf("ConstFold(%s): %s", gStr, msg)
+		}
+		for i := 0; i < 2; i++ {
+			env := irsem.NewHashEnv(drawEnvSeed(t, "env2"))
+			want, got := irsem.Eval(g, env), irsem.Eval(fg, env)
+			if want.Cmp(got) != 0 {
+				t.Fatalf("ConstFold changes the value of a tree built around a folded tree (valuation seed %d):\n  g = %s = %x\n  folded = %s = %x",
+					env.Seed, gStr, want, irsem.String(fg), got)
+			}
+		}
+		if bad := c09Unfolded(fg); bad != "" {
+			t.Fatalf("ConstFold(%s) = %s still contains an all-constant operation %s", gStr, irsem.String(fg), bad)
+		}
+		if irsem.String(f) != fStr || irsem.String(g) != gStr {
+			t.Fatalf("ConstFold modified its argument %s", gStr)
+		}
+		col.Class("composed-around-folded")
+	}
+
 	changed := irsem.String(f) != before
 	switch {
 	case !irsem.HasLoad(e):
@@ -106,7 +147,8 @@ func TestC09(t *testing.T) {
 	colC09 = ev.New("C09", "rapid: expression trees of depth <= 5 over all six binary operators, Less, register and "+
 		"memory loads (address sub-expressions), constants, widths 1..255 with deliberately mismatched parent/child "+
 		"widths and randomly inserted width gadgets and gadget look-alikes; 30% constant-only trees; each tree is folded "+
-		"and compared with the original under 3 hash-defined valuations by an independent math/big evaluator. "+
+		"and compared with the original under 3 hash-defined valuations by an independent math/big evaluator; a third of the folded trees is "+
+		"embedded (shared between two positions) in a bigger tree which is folded and compared again. "+
 		"non-trivial = folding changed the tree and the tree contains a load (value comparison is not vacuous); "+
 		"distinct by structural rendering of the tree")
 	col := colC09
